@@ -78,6 +78,8 @@ fn class(e: &lance_core::Error) -> String {
         "root"
     } else if m.contains("Parent namespace") {
         "noparent"
+    } else if m.contains("Failed to execute merge") {
+        "mergefail"
     } else if m.contains("already exists") {
         "exists"
     } else if m.contains("is not empty") {
@@ -264,14 +266,20 @@ fn loc_ok(loc: &str) -> bool {
     !(loc.contains("://") || loc.starts_with('/') || loc.contains(".."))
 }
 
-/// which defect class explains a divergence from the map spec, given the ids used so far in the case
-fn divergence_key(mode: char, op: &str, id: &[String], history: &[Vec<String>], spec: &Spec) -> Option<String> {
-    let has = |ids: &[Vec<String>], f: &dyn Fn(&str) -> bool| ids.iter().any(|i| i.iter().any(|n| f(n)));
+/// which recorded defect class explains a divergence from the map spec, given the ids used so far in the case
+fn divergence_key(mode: char, toks: &[&str], id: &[String], history: &[Vec<String>], spec: &Spec) -> Option<String> {
+    let op = toks[0];
+    let has = |f: &dyn Fn(&[String]) -> bool| history.iter().any(|i| f(i));
     if mode != 'D' && id.iter().any(|n| n.contains('\'')) {
         return Some("quote_in_name_sql_error".into());
     }
-    if mode != 'D' && has(history, &|n| n.contains('$')) {
+    if mode != 'D' && has(&|i| i.iter().any(|n| n.contains('$'))) {
         return Some("delimiter_in_name_collides".into());
+    }
+    // manifest-backed listings ignore page_token and limit
+    let via_manifest = mode == 'M' || (mode == 'B' && (!id.is_empty() || op == "lns"));
+    if matches!(op, "lns" | "lt") && via_manifest && (toks[2] != "-" || toks[3] != "-") {
+        return Some("manifest_list_ignores_paging".into());
     }
     // existence checks that ignore the object type: the id (or a proper prefix used as parent) names an entry of the other kind
     if mode != 'D' {
@@ -282,7 +290,14 @@ fn divergence_key(mode: char, op: &str, id: &[String], history: &[Vec<String>], 
             return Some("object_type_ignored".into());
         }
     }
-    let _ = history;
+    // names the store cannot hold faithfully: percent-encoded directory names / byte offsets used as character offsets
+    if has(&|i| i.iter().any(|n| !n.is_ascii())) {
+        return Some("non_ascii_name_unfaithful".into());
+    }
+    // dual mode: the hash-named directory of a child-namespace table whose name ends in `.lance` is listed as a root table
+    if mode == 'B' && has(&|i| i.len() >= 2 && i.last().is_some_and(|n| n.ends_with(".lance"))) {
+        return Some("lance_suffix_ghost_table".into());
+    }
     None
 }
 
@@ -493,13 +508,18 @@ impl C36 {
                 };
                 if !unspecified {
                     let got_sorted = sort_listing(&out);
-                    let class_ok = want.as_ref().is_none_or(|w| *w == out || *w == got_sorted);
+                    // dual mode: table_exists falls through to the directory check, whose error for an id that is
+                    // not single-level reads "multi-level ids need manifest mode" — still an Err, i.e. "does not exist"
+                    let dual_fallback = mode == 'B' && op == "et" && id.len() != 1 && out == "unsupported";
+                    let class_ok = want.as_ref().is_none_or(|w| {
+                        *w == out || *w == got_sorted || (dual_fallback && (w == "false" || w == "invalid"))
+                    });
                     let dump_ok = match (&want_dump, &d) {
                         (Some(w), Some(g)) => w == g,
                         _ => true,
                     };
                     if !class_ok || !dump_ok {
-                        let key = divergence_key(mode, op, &id, &history, &before);
+                        let key = divergence_key(mode, &toks, &id, &history, &before);
                         res.failures.push(OracleFailure {
                             what: format!(
                                 "mode {mode} {line:?}: map spec answers {:?} state {:?}; catalog answered {:?} state {:?}",
@@ -585,7 +605,7 @@ impl Prop for C36 {
     }
     fn budget(&self, tier: Tier) -> usize {
         match tier {
-            Tier::Quick => 330,
+            Tier::Quick => 450,
             Tier::Thorough => 5000,
             Tier::Search => 1500,
         }
@@ -629,6 +649,17 @@ impl Prop for C36 {
             };
             if rng.chance(1, 25) {
                 id.clear();
+            }
+            // at most one component with a quote: with an even number of quotes the interpolated SQL text is silently
+            // cut after its first literal (recorded under quote_in_name_sql_error; the model only has "quote = error")
+            let mut seen_quote = false;
+            for n in id.iter_mut() {
+                if n.contains('\'') {
+                    if seen_quote {
+                        *n = "a".to_string();
+                    }
+                    seen_quote = true;
+                }
             }
             let ids = enc_id(&id);
             let lim = |rng: &mut Rng| match rng.below(5) {
